@@ -656,9 +656,11 @@ def collision_expect(w, i, kind):
   if len(pairs) > 1 and abs(pairs[1][0] - pairs[0][0]) < 10 * tol_geo and pairs[0][0] < cutoff + 10 * tol_geo:
     fragile = True
   dist = best[0] if detected else cutoff
-  # pairs without a closed form: the reference is the engine's own convex solver called with another distmax; its
-  # iterative result (GJK/EPA on curved shapes) moves by ~1e-5 with distmax -> 10x looser comparison for those
-  tol_cmp = tol_geo if (best is None or best[3] == 'closed') else 10 * tol_geo
+  # accuracy of the engine's narrow phase is C15's subject; here the comparison is tight (1e-5) only where the engine is
+  # accurate by construction - separated pairs with a closed form -, and loose (1e-3) for penetrating pairs (EPA depth on
+  # curved shapes: 1.6e-5 observed on a sphere-ellipsoid pair 0.05 deep) and for pairs without a closed form (reference
+  # = the engine's own solver called with another distmax, which moves its iterative result by ~1e-5)
+  tol_cmp = tol_geo if (best is None or (best[3] == 'closed' and best[0] > 0)) else 100 * tol_geo
   if kind != 'distance' and detected and abs(best[0]) < 100 * tol_geo:
     fragile = True        # touching: the direction of the (zero-length) shortest segment is undefined
   note = 'fragile' if fragile else ('detected:' + best[3] if detected else 'undetected')
@@ -963,7 +965,8 @@ def expect(w, i, spec=None):
     rows = _limit_rows(w, E.mjCNSTR_LIMIT_JOINT if isj else E.mjCNSTR_LIMIT_TENDON, oid)
     if L['fragile'] or L['both']:
       return Result('none', level='isolation', note='limit-fragile' if L['fragile'] else 'limit-both-sides')
-    if not isj and int(m.ten_J_rownnz[oid]) == 0:
+    if not isj and (int(m.ten_J_rownnz[oid]) == 0 or not np.any(np.array(
+        d.ten_J[int(m.ten_J_rowadr[oid]):int(m.ten_J_rowadr[oid]) + int(m.ten_J_rownnz[oid])]))):
       # a tendon that no degree of freedom moves has an empty Jacobian row: the engine instantiates no limit
       # constraint for it, and the sensor is defined through "the corresponding limit constraint"
       return Result('none', level='isolation', note='limit-immobile-tendon')
